@@ -37,6 +37,29 @@ claimed.update({
          "Callers have returned before Close; descriptors are simulated-disk handles, goroutines are simulator tasks.",
          "deterministic simulation: resource ledger + task table after Close under seeded schedules, stalls and failing opens"),
 })
+claimed.update({
+ "C08": ("exploration", "Seeded operation sequences on index.Index (real index, record lists, flush and roll-over code over the simulated disk, in-memory primary) for 2-10 equal-length keys over a 2-4 symbol alphabet in one or two buckets; location reference model for Get, and after every mutation the bucket's record list must be sorted, prefix-free, each prefix a prefix of its own key, one entry per present key, and differ from the previous list only in the addressed entry (an insertion may lengthen one neighbour).", "4/C08",
+         "Random search, not exhaustive enumeration of the bounded space; no schedule/fault dimension.",
+         "deterministic simulation: seeded index op sequences vs location model + structural record-list checks"),
+ "C09": ("fault_enumeration", "Generated contents re-bucketed between sampled bit-size pairs (model comparison, continued history with fsck, and back), file-size mismatch opens must fail with the specific error types and leave contents intact, and every mutating file operation of the re-bucketing open is a crash point (torn appends included) whose image is reopened with the new and the old bit size: an open that succeeds must show every key. One known finding (KF-1, non-atomic directory swap) is reported and steered around by operation paths.", "4/C09",
+         "Process-crash model; bit pairs sampled (24 rarely); known finding KF-1 window excluded from the search while its witness still fails.",
+         "deterministic simulation with crash-point enumeration over the translating open"),
+ "C10": ("fault_enumeration", "Legacy version-2 index / unversioned primary / legacy freelist files are written by the harness from a generated model (dead records deleted-marked, pending on the freelist or both; stale record lists; entries past the end of the primary) and upgraded by the real OpenStore with chunk sizes from one record per chunk to a single chunk and equal or different index bits; contents must equal the model, fsck clean, second open identical; every mutating op of the upgrading open is a crash point (torn appends, nested crash) and the open that finally completes must show the model. Two known findings (KF-2 remap marker order, KF-3 translate swap) are reported and steered around.", "4/C10",
+         "Process-crash model; past-the-end entries are a crash-free class; known-finding windows excluded while their witnesses fail.",
+         "deterministic simulation with crash-point enumeration over the upgrading open + harness-written legacy formats"),
+ "C11": ("exploration", "Histories that end with chosen non-current primary files holding no live data (or below a low-use threshold), then bounded rounds of (GC cycle, Flush): every targeted file must be zero-length or unlinked, the oldest unlinked with the header advanced, unreferenced index files emptied, GC errors are violations, StorageSize never grows in non-relocating cycles, primary growth bounded by relocated bytes, and repeated rounds reach and keep a fixed point.", "4/C11",
+         "Bounds are generous finite constants; visited set starts empty.",
+         "deterministic simulation: bounded-progress, conservation and fixed-point checks over GC rounds"),
+ "C13": ("exploration", "Freelist ledger: expected multiset of superseded locations (from Index.Get before/after every call and GC cycle) must equal freelist file + every batch captured at the hand-over rename, nothing twice, no current location recorded; sequential histories with relocation, interrupted cycles and clean restarts, and concurrent disjoint-key writers + flusher + GC hand-over hammering.", "4/C13",
+         "Clean restarts only; concurrent class uses disjoint key sets and relocation disabled so the expected multiset is defined.",
+         "deterministic simulation: conservation ledger over freelist file and captured hand-over batches"),
+ "C14": ("exploration", "1-3 tasks drive a bare FileCache over the simulated disk with Open/Close/use/Remove/Clear/SetCacheSize(0..3)/Len over 1-3 names; invariants from the cache's white-box state and the disk's handle ledger: lent handles open and readable, open handles cached or lent, refs equal references lent out, no double close, no use after close, descriptors <= capacity + lent.", "4/C14",
+         "Seeded sampling of sequences (<= 26 ops), not exhaustive.",
+         "deterministic simulation: handle ledger + white-box invariants under seeded sequences and schedules"),
+ "C15": ("exploration", "Seeded blockstore call sequences (Put/PutMany/Get/Has/GetSize/DeleteBlock/HashOnRead/reopen) over blocks of all sizes, three hash functions and CID variants sharing a multihash, with cancelled contexts (no side effects on files), flipped stored bytes and mismatching blocks, against a multihash->bytes model incl. not-found and hash-on-read semantics.", "4/C15",
+         "One task; blocks are real hashes so bucket sharing comes from small index sizes.",
+         "deterministic simulation: seeded blockstore sequences with cancel/flip faults vs reference model"),
+})
 pending = {}
 for i in range(1,18):
     pid = "C%02d" % i
